@@ -150,7 +150,13 @@ class _FaultyMock(MockProvider):
                 self.fail_in = None
                 raise ex.CloudTemporaryError("scripted lookup failure")
             self.fail_in -= 1
-        return super().info_path(path, use_cache)
+        info = super().info_path(path, use_cache)
+        if info is None and self.oid_is_path:
+            # the state asks where a child of a renamed folder lives now: on a path-style provider the object at a path
+            # has that path as its id (the mock itself is empty in this part, the state is fed events directly)
+            from cloudsync.types import OInfo
+            return OInfo(otype=FILE, oid=self.normalize_path(path), hash=None, path=path, size=0, mtime=None)
+        return info
 
 
 def _entries(state):
